@@ -1,5 +1,5 @@
 (* C11/Driver.v — entry point of the correspondence run (extracted to OCaml). *)
-From RM Require Import C11.Model.
+From RM Require Import C11.Model C11.Prims Gen.C11Src.
 From RM Require C09.Model C09.Grammar C11.Text C11.Text2.
 Open Scope Z_scope.
 
@@ -9,9 +9,12 @@ Definition symbol_at (p : profile) (st : symtab) (address : Z) : outcome (option
   do o <- fill_symbol p st 0 address;
   Ret (match o_func o with Some (n, _, _) => Some n | None => None end).
 
+(* fourth component (round 5, second pass): the same query answered by the function COMPILED from the Rust source of
+   SymbolFile::fill_symbol (Gen/C11Src.v), with the fuel of Prims.src_fuel; the glue prints it as the D field and flags a
+   difference from the hand-written model (proved impossible on the unchanged tree: c11_compiled_fill_symbol) *)
 Fixpoint run_queries (p : profile) (st : symtab) (mbase : Z) (tbl : list (range * Z))
                      (mods : list module) (qs : list Z)
-  : outcome (list (sym_out * option (Z * sym_out) * option Z)) :=
+  : outcome (list (sym_out * option (Z * sym_out) * option Z * outcome sym_out)) :=
   match qs with
   | [] => Ret []
   | q :: t =>
@@ -19,19 +22,19 @@ Fixpoint run_queries (p : profile) (st : symtab) (mbase : Z) (tbl : list (range 
       do b <- frame_of p tbl mods q;
       do g <- symbol_at p st q;
       do rest <- run_queries p st mbase tbl mods t;
-      Ret ((a, b, g) :: rest)
+      Ret ((a, b, g, src_fill_symbol p (src_fuel st) st mbase q) :: rest)
   end.
 
 (* module 0 is (mbase, msize, true) *)
 Definition run_case_st (st : symtab) (mbase msize : Z) (extra : list (Z * Z * bool)) (qs : list Z)
-  : outcome (list (sym_out * option (Z * sym_out) * option Z)) :=
+  : outcome (list (sym_out * option (Z * sym_out) * option Z * outcome sym_out)) :=
   let mods : list module :=
     (mbase, msize, Some st) :: map (fun m : Z * Z * bool => (fst m, if snd m then Some st else None)) extra in
   do tbl <- mod_table mods;
   run_queries Debug st mbase tbl mods qs.
 
 Definition run_case (rf : raw_file) (mbase msize : Z) (extra : list (Z * Z * bool)) (qs : list Z)
-  : outcome (list (sym_out * option (Z * sym_out) * option Z)) :=
+  : outcome (list (sym_out * option (Z * sym_out) * option Z * outcome sym_out)) :=
   do st <- build_symtab rf; run_case_st st mbase msize extra qs.
 
 (* round 5: the model reading the TEXT (the two sides of c11_from_parse, executed).  [ds] = the lines of the
